@@ -667,7 +667,9 @@ def _valid_utf8(b: bytes) -> bool:
 
 def _ref_normalise_url(u: str) -> str:
     """reference description of what re-parsing does to a non-canonical URL: host lower-cased and IDNA-decoded, an empty
-    query dropped, an empty path replaced by a slash"""
+    query dropped, an empty path replaced by a slash, TAB/CR/LF removed"""
+    for ch in "\t\r\n":       # urllib.parse.urlsplit removes these anywhere in the URL
+        u = u.replace(ch, "")
     scheme, sep, rest = u.partition("://")
     cut = len(rest)
     for ch in "/?#":
